@@ -10,7 +10,7 @@ from harness import gen
 from harness.framework import Suite
 
 PID = "C19"
-LEAN_MODS = ["SwcVerif.Props.C19", "SwcVerif.Props.C19Gen", "SwcVerif.Props.C19Front"]
+LEAN_MODS = ["SwcVerif.Props.C19", "SwcVerif.Props.C19Gen", "SwcVerif.Props.C19Front", "SwcVerif.Props.C19Map"]
 TRANSLATE_ALGO = ["AlgoPopulation", "AlgoPopFront", "AlgoPopMap"]    # Gen/AlgoPopulation.lean, Gen/AlgoPopFront.lean are regenerated from swcgeom/core/population.py on every run
 DRIVER_FILES = ["SwcVerif/Model/AlgoRunPopulation.lean", "SwcVerif/Model/AlgoRunPopFront.lean", "SwcVerif/Model/AlgoRunPopMap.lean"]
 THEOREMS = [
@@ -23,6 +23,9 @@ THEOREMS = [
     "RefinePopFront.pop_len_refines", "RefinePopFront.pop_getitem_int_refines", "RefinePopFront.pop_init_refines", "RefinePopFront.nestl_getitem_refines",
     "RefinePopFront.pop_getitem_slice_refines", "C19.generated_pop_getitem", "C19.frontStep_inv", "C19.generated_front_load_at_most_once",
     "C19.slice_indices_eq_spec", "C19.generated_pop_slice", "C19.generated_to_population",
+    # Gen/AlgoPopMap.lean: Population.find_swcs, LazyLoadingTrees.__iter__, Population.map
+    "RefinePopMap.find_swcs_refines", "RefinePopMap.lazy_iter_refines", "RefinePopMap.pop_map_refines", "C19.generated_find_swcs",
+    "C19.generated_find_swcs_order", "C19.frontState_inv", "C19.generated_map_results", "C19.generated_map_load_at_most_once",
 ]
 TRUSTED = ["hand-written models Model/Population.lean of _get_idx / LazyLoadingTrees / ChainTrees / NestTrees / Population construction "
            "(tied by the c19.lazy and c19.chain correspondence: returned file and read log compared exactly for every operation script)"]
